@@ -260,7 +260,14 @@ class ImplSession:
                 d.subscribe(self.objs[ev[1]])
                 out = []
             elif tag == 6:
-                o = d.create_or_get_observer(observer_classes()[ev[1]])
+                if len(ev) > 2 and ev[2]:
+                    allowed = set(ev[2][0])
+                    objs = self.objs
+                    o = d.create_or_get_observer(
+                        observer_classes()[ev[1]],
+                        condition=lambda ob: any(ob is objs[a] for a in allowed if a < len(objs)))
+                else:
+                    o = d.create_or_get_observer(observer_classes()[ev[1]])
                 idx = [i for i, x in enumerate(self.objs) if x is o]
                 out = idx[0] if idx else self._register(o)
             elif tag == 8:
@@ -335,7 +342,8 @@ def deep_state(sess):
 
     d = sess.dispatcher
     out = {"d": enc_dstate(d), "n": d.schedule.num_scheduled_operations,
-           "subs": [type(s).__name__ + str(id(s)) for s in d.subscribers],
+           "subs": [type(s).__name__ + ":" + str(next((i for i, o in enumerate(sess.objs) if o is s), -1))
+                    for s in d.subscribers],
            "queries": [_jsonable(d.current_time()), _jsonable(d.available_operations()),
                        _jsonable(d.raw_ready_operations()), _jsonable(d.unscheduled_operations()),
                        _jsonable(d.scheduled_operations()), _jsonable(d.completed_operations()),
